@@ -335,6 +335,9 @@ pub enum Op {
 	CaForget { ca: usize, account: String },
 	/// truncate the account file of `account` to `at` bytes (while the daemon is stopped)
 	TruncateAccount { account: String, at: u64 },
+	/// for every offset 0, step, 2*step, .. < len of the account file: truncate a copy to that offset,
+	/// boot the daemon, stop it, restore the file (crash_points: every truncation point)
+	TruncateSweep { account: String, step: u64 },
 	/// remove a certificate's file: which = "pk" | "crt"
 	RemoveFile { cert: usize, which: String },
 	/// step the wall clock (only legal between attempts, while stopped or sleeping)
